@@ -70,7 +70,7 @@ def _scope_core(src, inst, consts):
 
 
 def check_pair(src, dst, inputs, vis_preds, universe, consts=(), costs=True, one_to_one=False, show_terms=False,
-               timeout=20, dst_asts=None, vplus=None, extra="", open_preds=None, want_reach=True):
+               timeout=20, dst_asts=None, vplus=None, extra="", open_preds=None, want_reach=True, kf_classes=()):
     """decide one pair.  returns a dict:
       status : held | violation | inconclusive | skip | harness_error
       queries: [{q, path, verdict, s}], bounds, sizes, counterexample (for violation)"""
@@ -127,7 +127,7 @@ def check_pair(src, dst, inputs, vis_preds, universe, consts=(), costs=True, one
             res["reach"] = v
             res["queries"].append({"q": "reach(A)", "path": "exists", "verdict": v, "s": round(dt, 3)})
         outcome = _decide(res, src, dst, dst_asts, A, B, opens, V, vis_preds, vname, costs, one_to_one, show_terms, timeout,
-                          consts, blocked, bool(ga.scope_msgs()), extra)
+                          consts, blocked, bool(ga.scope_msgs()), extra, kf_classes)
         if outcome[0] == "held":
             final = outcome
             break
@@ -144,14 +144,30 @@ def check_pair(src, dst, inputs, vis_preds, universe, consts=(), costs=True, one
 
 
 def _decide(res, src, dst, dst_asts, A, B, inputs, V, vis_exact, vname, costs, one_to_one, show_terms, timeout, consts,
-            blocked, has_scope_msgs, extra):
+            blocked, has_scope_msgs, extra, kf_classes=()):
+    import re as _re
+
     queries = [("A->B", A, B), ("B->A", B, A)]
     inconclusive = None
+    known = res.setdefault("known_findings", [])
+    from . import astutil as _au
+
+    try:
+        dst_sigs = _au.program_sigs(_au.parse(dst))
+    except RuntimeError:
+        dst_sigs = set()
+
+    def sigs_of(e):
+        rs = [_re.compile(r) for r in e["match"]["nonempty_result_preds"]]
+        return [sg for sg in sorted(dst_sigs) if any(r.search(sg[0]) for r in rs)]
+
+    regexes = [sg for e in kf_classes if e["id"] in known for sg in sigs_of(e)]
     for qname, X, Y in queries:
         rounds = 0
         while True:
             rounds += 1
-            enc, xa, path, reason = smt.q_nocounterpart(X, Y, costs=costs, blocked=blocked)
+            ne = (("X" if X is B else "Y"), regexes) if regexes else None
+            enc, xa, path, reason = smt.q_nocounterpart(X, Y, costs=costs, blocked=blocked, nonempty=ne)
             if enc is None:
                 res["queries"].append({"q": qname, "V": vname, "path": path, "verdict": "not_encodable", "why": reason})
                 inconclusive = reason
@@ -170,18 +186,30 @@ def _decide(res, src, dst, dst_asts, A, B, inputs, V, vis_exact, vname, costs, o
             inst, trues = instance_of(model, X, xa, inputs)
             if vname == "V+":
                 # a difference on a non-output predicate is not a violation; fall back to the exact V
-                cmp_exact = replay.compare(src, dst, facts(inst) + " " + extra, vis_exact, show_terms, costs, one_to_one, consts, dst_asts)
-                if cmp_exact["status"] == "differ":
-                    return ("violation", f"{qname} sat (V+) and clingo confirms on V", {"instance": facts(inst), "replay": cmp_exact, "query": qname})
-                if cmp_exact["status"] == "out_of_scope" and rounds <= MAX_SCOPE_ROUNDS:
-                    blocked.append(set(_scope_core(src, inst, consts)))
-                    if not blocked[-1]:
+                sc = replay.enumerate_models(text=src, instance=facts(inst) + " " + extra, vis_preds=set(), consts=consts, cap=1)
+                if sc.scope and not sc.error and rounds <= MAX_SCOPE_ROUNDS:
+                    core = set(_scope_core(src, inst, consts))
+                    if not core:
                         return ("skip", "every instance is out of scope (diagnostic without any instance atom)")
+                    blocked.append(core)
                     continue
                 return ("sat_on_vplus", "")
-            cmpres = replay.compare(src, dst, facts(inst) + " " + extra, V, show_terms, costs, one_to_one, consts, dst_asts)
+            sig_of = {X.sym[a]: X.sig[a] for a in X.sig if a in X.sym}
+            fix = [t for t in trues if V is None or sig_of.get(t) in V]
+            cmpres = replay.compare(src, dst, facts(inst) + " " + extra, V, show_terms, costs, one_to_one, consts, dst_asts,
+                                    fix=fix if V is not None else None)
             if cmpres["status"] == "differ":
-                return ("violation", f"{qname} sat and clingo confirms", {"instance": facts(inst), "replay": cmpres, "query": qname})
+                hit = None
+                for e in kf_classes:
+                    if e["id"] not in known and class_signature_holds(e, dst, facts(inst) + " " + extra, consts):
+                        hit = e
+                        break
+                if hit is not None:
+                    known.append(hit["id"])
+                    res.setdefault("known_examples", []).append({"finding": hit["id"], "instance": facts(inst), "replay": cmpres})
+                    regexes += sigs_of(hit)
+                    continue
+                return ("violation", f"{qname} sat and clingo confirms", {"instance": facts(inst), "fix": fix, "replay": cmpres, "query": qname})
             if cmpres["status"] == "out_of_scope":
                 if rounds > MAX_SCOPE_ROUNDS:
                     inconclusive = "too many out-of-scope cores"
@@ -221,3 +249,34 @@ def _decide(res, src, dst, dst_asts, A, B, inputs, V, vis_exact, vname, costs, o
             if v != "unsat":
                 return ("inconclusive", f"injectivity: {v}")
     return ("held", "")
+
+
+def class_signature_holds(entry, dst, instance, consts):
+    """signature of a class-identified known finding: some predicate of the result program whose name matches
+    one of the entry's regexes has no ground atom at all for this instance"""
+    import re as _re
+
+    import clingo
+
+    from . import astutil
+
+    regs = [_re.compile(r) for r in entry["match"]["nonempty_result_preds"]]
+    try:
+        sigs = {s for s in astutil.program_sigs(astutil.parse(dst)) if any(r.search(s[0]) for r in regs)}
+    except RuntimeError:
+        return False
+    if not sigs:
+        return False
+    args = []
+    for c in consts:
+        args += ["-c", c]
+    ctl = clingo.Control(args, logger=lambda c, m: None)
+    try:
+        ctl.add("base", [], dst + "\n" + instance)
+        ctl.ground([("base", [])])
+    except RuntimeError:
+        return False
+    for name, ar in sigs:
+        if not any(True for _ in ctl.symbolic_atoms.by_signature(name, ar)):
+            return True
+    return False
